@@ -775,6 +775,7 @@ def dict_method(I, ref, r, name, args, kwargs):
                     k = z3.Const("k!upd", r.dom.sort().domain())
                     r.val = z3.Lambda([k], z3.If(z3.Select(sr.dom, k), z3.Select(sr.val, k), z3.Select(r.val, k)))
                     r.dom = z3.Lambda([k], z3.Or(z3.Select(r.dom, k), z3.Select(sr.dom, k)))
+                    r.ordver += 1
                     nsz = z3.Int(run.fresh_name("size!upd"))
                     run.assume(z3.And(nsz >= r.size, nsz >= sr.size, nsz <= r.size + sr.size))
                     r.size = nsz
